@@ -159,7 +159,12 @@ func (lookup *TypeLookup) Get(id TypeId) Type {
 func (lookup *TypeLookup) GetMap(t Type) *TypedMapType {
 	id := t.TypeId()
 	if id.MapDim != 0 {
-		panic("map<map> is not allowed!")
+		// A map of typed maps has no TypeId.  It cannot be declared, but it
+		// is what a map call's split argument is when the parameter it is
+		// split over is itself a typed map, so build it without caching it.
+		return &TypedMapType{
+			Elem: t,
+		}
 	}
 	id.MapDim = id.ArrayDim + 1
 	id.ArrayDim = 0
